@@ -219,6 +219,14 @@ def run_batch(ctx, lin, impl, cases, tag, model=None):
         st["shapes"].add(sh)
         if nontrivial(i["lines"]):
             st["nontrivial"].add(sh)
+        if c["cfg"][0] != 4 and c["cfg"][2]:
+            # elimination: the store of op_collided (2) into the partner's descriptor = an eliminated push/pop pair;
+            # the store of op_waiting (1) = one back-off round
+            hits = sum(1 for l in i["lines"] if " st o" in l and l.endswith(" i2 i2"))
+            st["elim_hits"] += hits
+            st["elim_rounds"] = st.get("elim_rounds", 0) + sum(1 for l in i["lines"] if " st o" in l and l.endswith(" i1 i1"))
+            if hits:
+                st["elim_cases"] = st.get("elim_cases", 0) + 1
         for l in i["lines"]:
             if " ev ret_push" in l: st["ops"]["push"] += 1
             elif " ev ret_pop 1" in l: st["ops"]["pop_some"] += 1
@@ -318,7 +326,8 @@ def run(ctx):
         if k.startswith("corpus"):
             continue
         per[k] = {"cases": s["n"], "diverged": s["diverged"], "distinct_logs": len(s["shapes"]), "distinct_contended": len(s["nontrivial"]),
-                  "lincheck_verdicts": s["verdicts"], "overrun": s["overrun"], "ops": s["ops"], "impl_events": s["steps"]}
+                  "lincheck_verdicts": s["verdicts"], "overrun": s["overrun"], "ops": s["ops"], "impl_events": s["steps"],
+                  "eliminated_pairs": s["elim_hits"], "cases_with_elimination": s.get("elim_cases", 0), "backoff_rounds": s.get("elim_rounds", 0)}
     sample = gen_cases(ctx, 1, 0, False, "sample")[0]
     ctx.coverage.update({
         "evaluations": evals, "distinct_nontrivial": len(nontriv),
